@@ -29,7 +29,7 @@ thorough='--thorough' in sys.argv; cross='--cross' in sys.argv
 # changes whose violation is observable only through the clause of a neighbouring property:
 # when the own check passes, these checks are tried too (and named in the result)
 NEIGHBOUR={'C03-m15':['C14'],'C17-m15':['C18'],'C06-m14':['C15'],'C17-m13':['C09'],'C18-m5':['C17'],'C20-m6':['C11'],'C03-m7':['C14'],'C13-m8':['C09'],'C20-m8':['C07'],
-           'C17-m23':['C09'],'C20-m23':['C09'],'C03-m23':['C14'],'C09-m24':['C02']}
+           'C17-m23':['C09'],'C20-m23':['C09'],'C03-m23':['C14'],'C13-m25':['C14'],'C09-m24':['C02']}
 # changes that only the thorough tier of their own check can reach (long-run effects)
 THOROUGH_ONLY={'C01-m22'}
 sys.path.insert(0,ROOT)
